@@ -35,6 +35,17 @@ def extract_all(prog):
     return out
 
 
+def canon_read(r):
+    """comparison form of one read: the iteration plumbing of repeated reads is not layout - drop the `iterator yielded Some`
+    conditions everywhere and the name of the per-element binding of `each:` reads (a `for` loop names the element, a
+    `map().collect()` does not)"""
+    head, _, cond = r.partition("  if ")
+    conds = [c for c in cond.split(" & ") if c and not c.startswith("variant(ret:next)")] if cond else []
+    if "each:" in head and ": " in head.split("each:")[0]:
+        head = head[head.index("each:"):]
+    return head + (("  if " + " & ".join(conds)) if conds else "")
+
+
 def rule_bitspec(ctx):
     rid = "R-BITSPEC"
     ctx.rule(rid, "for every header parser (all Bundle::parse impls and hand-written readers of jxl-image, jxl-oxide-common and "
@@ -60,6 +71,8 @@ def rule_bitspec(ctx):
         ctx.count(rid + ".reads", len(have))
         if entry.get("reviewed"):
             reviewed += 1
+        have_raw, want_raw = have, want
+        have, want = [canon_read(x) for x in have], [canon_read(x) for x in want]
         if have == want:
             ctx.ok(rid, "layout:%s" % path, "%d reads%s" % (len(have), "" if entry.get("reviewed") else " (snapshot, not independently reviewed)"),
                    nontrivial=len(have) > 1, fn=f)
@@ -208,6 +221,8 @@ def main(pid, tier, repo=None):
     rule_hdrpred(ctx)
     rule_bitbuf(ctx)
     specconst.run(ctx, pid)
+    from . import c09
+    c09.rule_init_offsets(ctx)
     ctx.not_decided("the primitive readers' own arithmetic (U64 continuation, F16 conversion), derived values other than the canvas predicates, "
                     "and that reported accessor values equal the parsed fields")
     return ctx.finish(
